@@ -1,6 +1,6 @@
 (* C09  Bytes the guest transmits reach the host once, in order. *)
 From Coq Require Import ZArith List Bool.
-From Dmd Require Import Model.Bits Model.Fifo Model.Mem Model.Duart Proofs.FifoProofs Proofs.PortProofs Proofs.DuartProofs Proofs.DeviceRefine.
+From Dmd Require Import Model.Bits Model.Fifo Model.Mem Model.Duart Proofs.FifoProofs Proofs.PortProofs Proofs.DuartProofs Proofs.DeviceRefine Gen.GenDuart Proofs.RegMapTie.
 Import ListNotations.
 Open Scope Z_scope.
 
@@ -69,3 +69,12 @@ Theorem C09_other_channel_untouched :
   forall (b : bool) (o : dop) (d : duart), chan_op b o d = None -> port_of b (dstep o d) = port_of b d.
 Proof. exact other_channel_untouched. Qed.
 Print Assumptions C09_other_channel_untouched.
+
+(* the write side of the register map is the source's: writes at offsets write_byte has no arm for change nothing, and
+   an arm acts on a channel's port only if the source arm names that channel *)
+Theorem C09_write_map_is_source_register_map :
+  (forall off v d, ~ In (w8 off) (arm_offsets gd_write_arms) -> duart_write_byte off v d = d)
+  /\ (forall off ports clr b v d,
+        In (off, ports, clr) gd_write_arms -> chan_op b (DWrite off v) d <> None -> In (chan_no b) ports).
+Proof. split; [exact write_undecoded | exact write_arm_channel]. Qed.
+Print Assumptions C09_write_map_is_source_register_map.
